@@ -92,11 +92,19 @@ TkSeqs(A, n) == {SelectSeq(q, LAMBDA e : e # PadTk) : q \in [1..n -> A \cup {Pad
 RECURSIVE TkSrc(_)
 TkSrc(q) == IF q = <<>> THEN "" ELSE " " \o q[1].s \o TkSrc(Tail(q))
 TkTypes(q) == [k \in 1..Len(q) |-> q[k].t]
-ExprInputs(A) == {IF closed THEN [toks |-> <<"LBRACES">> \o TkTypes(q) \o <<"RBRACES">>, incode |-> FALSE, open |-> FALSE, src |-> "{{" \o TkSrc(q) \o " }}", owned |-> TRUE]
-                            ELSE [toks |-> <<"LBRACES">> \o TkTypes(q), incode |-> TRUE, open |-> TRUE, src |-> "{{" \o TkSrc(q), owned |-> TRUE] :
+\* the lexer takes "}}" for the end of the code only when every "{" before it has been closed: otherwise it is two "}"
+\* tokens and the input ends in code mode
+Balanced(q) == Count(TkTypes(q), {"LBRACE"}) = Count(TkTypes(q), {"RBRACE"})
+ExprInputs(A) == {IF closed /\ Balanced(q)
+                  THEN [toks |-> <<"LBRACES">> \o TkTypes(q) \o <<"RBRACES">>, incode |-> FALSE, open |-> FALSE, src |-> "{{" \o TkSrc(q) \o " }}", owned |-> TRUE]
+                  ELSE IF closed
+                  THEN [toks |-> <<"LBRACES">> \o TkTypes(q) \o <<"RBRACE", "RBRACE">>, incode |-> TRUE, open |-> FALSE, src |-> "{{" \o TkSrc(q) \o " }}", owned |-> TRUE]
+                  ELSE [toks |-> <<"LBRACES">> \o TkTypes(q), incode |-> TRUE, open |-> TRUE, src |-> "{{" \o TkSrc(q), owned |-> TRUE] :
                   q \in TkSeqs(A, MaxLex), closed \in BOOLEAN}
 AllInputs == IF LexSet = "exprA" THEN ExprInputs(ExprA) ELSE IF LexSet = "exprB" THEN ExprInputs(ExprB) ELSE MCInputs
 
-Record == [src |-> inp.src, toks |-> inp.toks, parseErr |-> errs # <<>>, mustErr |-> inp.open \/ (\E k \in 1..Len(inp.toks) : inp.toks[k] = "ILLEGAL"), firstErr |-> IF errs = <<>> THEN "" ELSE errs[1]]
+\* (toks: compared with the real lexer's token types for the token-sequence inputs; adjacent text lexemes of the other sets
+\* lex as one token)
+Record == [src |-> inp.src, toks |-> IF LexSet \in {"exprA", "exprB"} THEN inp.toks ELSE <<>>, parseErr |-> errs # <<>>, mustErr |-> inp.open \/ (\E k \in 1..Len(inp.toks) : inp.toks[k] = "ILLEGAL"), firstErr |-> IF errs = <<>> THEN "" ELSE errs[1]]
 Gen == (Finished /\ Emit_) => PrintT(ToJson(Record))
 =============================================================================
